@@ -82,6 +82,22 @@ D = {
  "R2-C16-m2": ("C16", "independent seeder, round 2", "SSE4.1-only: inode_48 free-slot search starts at slot 16", "-msse4.1 build, inode_48 with slots 16..47 full and a hole below 16, then insert"),
  "R2-C17-m1": ("C17", "independent seeder, round 2", "unregister_active_ptr erases every registration of the address", "assertion build, two live wrappers on one address"),
  "R2-C17-m2": ("C17", "independent seeder, round 2", "qsbr_ptr_span copy takes size_bytes() as element count", "span of elements wider than one byte"),
+ "R3-C01-m1": ("C01", "independent seeder, round 3", "key_prefix::make_u64 clamps the shift of the first key so that a full word can be loaded (wrong prefix for a leaf split inside the last 8 key bytes)", "leaf split below the root where the two keys share a further byte or new[depth] == old[0]; keys with all-zero leading bytes are immune"),
+ "R3-C01-m2": ("C01", "independent seeder, round 3 (the C04 seeder of this round found the same change independently)", "256 -> 48 shrink disposes of the removed leaf with the immediate deleter instead of QSBR", "olc_db, second registered thread, view of a value whose removal shrinks an inode_256 with exactly 49 children"),
+ "R3-C02-m1": ("C02", "independent seeder, round 3", "inode_16 insert position computed with a signed byte compare", "inode_16 receiving its 6th or later child with key bytes on both sides of 0x80; only scans see it"),
+ "R3-C02-m2": ("C02", "independent seeder, round 3", "inode_48::lte_key_byte returns the slot index instead of the key byte", "reverse seek leaving the tree at an inode_48 whose slots are not in key-byte order"),
+ "R3-C03-m1": ("C03", "independent seeder, round 3", "try_insert loads the root before opening the root pointer's read section", "one preemption between the two adjacent loads while another insert replaces the root (empty tree, root leaf split, root prefix split)"),
+ "R3-C03-m2": ("C03", "independent seeder, round 3", "try_remove's 'key prefix does not match' exit no longer validates the parent", "remove below a node whose prefix is cut in place by a concurrent prefix split, prefix bytes pairwise distinct so that the stale walk sees a mismatch"),
+ "R3-C04-m1": ("C04", "independent seeder, round 3", "256 -> 48 shrink frees the removed leaf at once (delete_subtree) instead of through QSBR", "reader holding a view while a remove shrinks an inode_256 with exactly 49 children"),
+ "R3-C04-m2": ("C04", "independent seeder, round 3", "inode_256::for_each_child counts down from the 8-bit children_count (0 for a full node)", "clear() or destruction of an index with an inode_256 that has exactly 256 children: nothing below it is freed"),
+ "R3-C05-m1": ("C05", "independent seeder, round 3", "ordinary unregistration rotates the leaver's request lists unconditionally (execute_previous_requests instead of advance_last_seen_epoch)", "thread pauses/exits, not last of the epoch, with current-epoch requests, after having seen the epoch; a holder that quiesced earlier"),
+ "R3-C05-m2": ("C05", "independent seeder, round 3", "change_epoch ages the orphan lists after publishing the new epoch", "one preemption between the publishing CAS and the orphan exchange; meanwhile another thread retires in the new epoch and leaves"),
+ "R3-C06-m1": ("C06", "independent seeder, round 3", "take_orphan_list as load + early return + store(nullptr) instead of exchange", "a leaver pushes its node between the epoch changer's load and store of a non-empty orphan list"),
+ "R3-C06-m2": ("C06", "independent seeder, round 3 (same change as R2-C04-m2, found independently)", "register_thread during an epoch change returns at once", "thread start inside another thread's epoch change, quiescent state before the change is published: thread count corrupted"),
+ "R3-C09-m1": ("C09", "independent seeder, round 3", "iterator stack cleared in last() before the retry loop instead of in every try_last()", "full reverse scan whose right-most path is >= 2 inodes deep, writer modifying the lower one in place during the descent: part of the tree delivered twice"),
+ "R3-C09-m2": ("C09", "independent seeder, round 3", "try_seek's reverse sibling branch saves the parent's version for the node", "reverse seek with an absent bound; parent version ahead of the node's by exactly the number of in-place writes the node then receives"),
+ "R3-C14-m1": ("C14", "independent seeder, round 3", "root-leaf removal makes the leaf obsolete before write-locking the root pointer", "another writer takes the root pointer lock in between: obsolete leaf stays the root, every later operation spins"),
+ "R3-C14-m2": ("C14", "independent seeder, round 3", "shrink takes the parent's write lock only after the node was copied and made obsolete", "shrinking remove below a real parent inode that a sibling writer modifies in between"),
  "C14-m1": ("C14", "independent seeder", "inode_4 collapse read-locks and upgrades the remaining child only after node and leaf were made obsolete; a failed upgrade leaves an obsolete node linked", "remover and a second writer that write-locks the remaining child between the remover's load of its lock word and the remover's CAS (two preemptions): every later operation through that node restarts forever"),
  "C14-m2": ("C14", "independent seeder", "removed leaf made obsolete right after its upgrade, before the remaining child's upgrade", "one preemption of the remover between opening and upgrading the remaining child's section while another thread writes inside it: obsolete leaf stays linked"),
 }
